@@ -161,7 +161,7 @@ type Result struct {
 	Runs          uint64            `json:"runs"`
 	RunsByScen    map[string]uint64 `json:"runs_by_scenario"`
 	Completed     bool              `json:"completed"`
-	SimTimeNs     int64             `json:"sim_time_ns"`
+	SimTimeS      float64           `json:"sim_time_s"`
 	WallS         float64           `json:"wall_s"`
 	Faults        map[string]int    `json:"faults"`
 	Probes        map[string]int    `json:"probes"`
@@ -250,7 +250,7 @@ func loadKnown() []KnownFinding {
 
 type merged struct {
 	runs, decisions, steps, draws, events, nontrivial uint64
-	simNs                                             int64
+	simS                                              float64
 	faults, probes, sites                             map[string]int
 	runsByScen                                        map[string]uint64
 	abandoned, adopted                                int
@@ -273,7 +273,7 @@ func (m *merged) add(r *Result, hashFile string) {
 	m.draws += r.Draws
 	m.events += r.Events
 	m.nontrivial += r.NontrivialRun
-	m.simNs += r.SimTimeNs
+	m.simS += r.SimTimeS
 	m.abandoned += r.Abandoned
 	m.adopted += r.Adopted
 	for k, v := range r.Faults {
@@ -594,7 +594,7 @@ func check(prop, tier string) int {
 	wallS := time.Since(start).Seconds()
 	writeEvidence(prop, tier, seed, plan, m, b, wallS, buildS, nViol, knownHit)
 	fmt.Printf("check %s %s: runs=%d distinct=%d decisions=%d sim_time=%.0fs wall=%.1fs (build %.1fs) violations=%d known=%d\n",
-		prop, tier, m.runs, len(m.distinctRuns), m.decisions, float64(m.simNs)/1e9, wallS, buildS, nViol, len(knownHit))
+		prop, tier, m.runs, len(m.distinctRuns), m.decisions, m.simS, wallS, buildS, nViol, len(knownHit))
 	return exit
 }
 
@@ -645,7 +645,7 @@ func writeEvidence(prop, tier string, seed uint64, plan *Plan, m *merged, b *bui
 		"samples":                   m.samples,
 		"runs_by_scenario":          m.runsByScen,
 		"runs_per_hour":             int(float64(m.runs) / (wallS - buildS + 0.001) * 3600),
-		"simulated_time_s":          float64(m.simNs) / 1e9,
+		"simulated_time_s":          m.simS,
 		"fault_kinds_fired":         m.faults,
 		"rare_condition_probes":     m.probes,
 		"probes_stuck_at_zero":      zeroProbes,
